@@ -552,7 +552,7 @@ class Registers:
         if not self.scr.irq:
             self.cpsr.i = 1
         self.cpsr.it = 0b00000000
-        self.branch_to(self.hvbar + vect_offset)
+        self.branch_to(bits_ops.add(self.hvbar, vect_offset, 32))
 
     def enter_monitor_mode(self, new_spsr_value, new_lr_value, vect_offset):
         self.cpsr.m = 0b10110
@@ -565,16 +565,16 @@ class Registers:
         self.cpsr.f = 1
         self.cpsr.i = 1
         self.cpsr.it = 0b00000000
-        self.branch_to(self.mvbar + vect_offset)
+        self.branch_to(bits_ops.add(self.mvbar, vect_offset, 32))
 
     def take_hyp_trap_exception(self):
-        preferred_exceptn_return = self.get_pc() - 4 if self.cpsr.t else self.get_pc() - 8
+        preferred_exceptn_return = bits_ops.sub(self.get_pc(), 4 if self.cpsr.t else 8, 32)
         new_spsr_value = self.cpsr.value
         self.enter_hyp_mode(new_spsr_value, preferred_exceptn_return, 20)
 
     def take_smc_exception(self):
         self.it_advance()
-        new_lr_value = self.get_pc() if self.cpsr.t else self.get_pc() - 4
+        new_lr_value = self.get_pc() if self.cpsr.t else bits_ops.sub(self.get_pc(), 4, 32)
         new_spsr_value = self.cpsr.value
         vect_offset = 8
         if self.cpsr.m == 0b10110:
